@@ -3,6 +3,7 @@ import Driver.Util
 import Mxj.Model.Encode
 import Driver.OpsXml
 import Driver.OpsTok
+import Mxj.Model.Balanced
 namespace Mxj.Drv
 open Mxj Mxj.Proto
 
@@ -21,6 +22,23 @@ def opXenc : P Out := do
     | _, _ => .error .other
   pure (match r with
     | .ok s => "ok " ++ showStr s
+    | .error _ => "err")
+
+/-- `xenct cfg api val rt et` → the bytes of `xenc`, the model tokenizer on them and the
+    verdict of `balanced` on those tokens: `ok <bytes> | tok <tokens> | bal b` with b = 1, 0 or x (no tokens); or `err` -/
+def opXenct : P Out := do
+  let cfg ← pEncCfg; let api ← pNat; let v ← pVal; let rt ← pStr; let et ← pStr; pEnd
+  let r : Except ErrKind Str := match api, v with
+    | 0, .map m => mapXml cfg m none
+    | 1, .map m => mapXml cfg m (some rt)
+    | 2, v => anyXml cfg v rt et
+    | 3, v => anyXml cfg v defaultRootTag defaultElementTag
+    | _, _ => .error .other
+  pure (match r with
+    | .ok s => "ok " ++ showStr s ++ " | " ++ showTokenize s ++ " | bal " ++
+        (match Tokz.tokenize s with
+         | some ts => if EncTok.balanced ts then "1" else "0"
+         | none => "x")
     | .error _ => "err")
 
 /-- `xrt deccfg strconv tokens fin enc-escape goEmpty doc` → decode the tokens, encode the
